@@ -112,6 +112,11 @@ video_sink_start(struct video_sink_s* self)
            device_state_as_string(storage_get_state(self->storage)));
 
     channel_accept_writes(&self->in, 1);
+    // Join the channel as a reader before any producer runs. A channel without
+    // readers lets the writer wrap freely, so frames written before this
+    // sink's thread first maps the channel could be overwritten and lost.
+    channel_read_map(&self->in, &self->reader);
+    channel_read_unmap(&self->in, &self->reader, 0);
     self->is_stopping = 0;
     self->is_running = 1;
     CHECK(
